@@ -257,10 +257,35 @@ def k3(ctx):
                 # proof = pc_congruence(..).2 ; a = .0 ; b = .1
                 ok = False
                 why = role_str(el)
-                if pf[0] == "field" and pf[2] == "2" and strip_role(pf[1])[0] == "call" and strip_role(pf[1])[1] == "pc_congruence":
+                # the congruence result may be a tuple (a, b, proof) or a private struct with the same three components in order
+                def pos(r):
+                    if not (isinstance(r, tuple) and r[0] == "field"):
+                        return None
+                    if r[2].isdigit():
+                        return int(r[2])
+                    base_ = strip_role(r[1])
+                    if isinstance(base_, tuple) and base_[0] == "call":
+                        for cb_ in b.all_bodies():
+                            cs_ = cb_.call_at.get(base_[4])
+                            if cs_ is not None and cs_.callee and cs_.callee.target in crate.bodies:
+                                adt_ = crate.adt_named(crate.bodies[cs_.callee.target].local_ty(0).split("<")[0])
+                                if adt_ is not None:
+                                    names_ = [f["name"] for f in adt_["variants"][0]["fields"]]
+                                    if r[2] in names_:
+                                        return names_.index(r[2])
+                    return None
+                if pf[0] == "field" and pos(pf) == 2 and strip_role(pf[1])[0] == "call" and strip_role(pf[1])[1] == "pc_congruence":
                     base = strip_role(pf[1])
+                    fa = [f for f in (sh[0], sh[1]) if False]
                     a = ("field", base, "0")
                     bb_ = ("field", base, "1")
+                    # normalise named components of the shape to positions
+                    def norm(z):
+                        z = strip_role(z)
+                        if isinstance(z, tuple) and z[0] == "field" and strip_role(z[1]) == base and pos(z) is not None:
+                            return ("field", base, str(pos(z)))
+                        return z
+                    sh = (norm(sh[0]), norm(sh[1]))
                     x, y = sh
                     ok = (x == bb_ or strip_role(x) == bb_) and (y == a or strip_role(y) == a)
                     if not ok:
